@@ -7,7 +7,7 @@ PROPS = {}
 SOURCE_COMMITS = []   # hook commits in /repo (none: contracts live in /verif); fix: commits are listed in known_findings.txt
 # properties not (yet) claimed, with the reason that goes to MANIFEST.not_applicable
 UNCLAIMED = {p: "no check is registered for this property yet (contracts planned in DESIGN.md section 4 are not built); nothing is claimed"
-             for p in ( "C11", "C19")}
+             for p in ( "C19")}
 
 
 def J(**kw):
@@ -526,6 +526,7 @@ PTC_SWAP = "((search == __CPROVER_loop_entry(search) && found == __CPROVER_loop_
 PTC_LOC = ["i", "j", "loc", "loopCount", "currentSearchNum", "numSearchHexes", "numFoundHexes", "search", "found", "bboxes", "out",
            "numHexagons", "ring", "edgeHexError", "hexCenter", "temp", "searchHex", "hex"]
 J(name="c17.polygonToCells", props=["C17"], harness="c17.c", entry="h_polygonToCells", alloc=True, timeout=3000, tier="thorough",
+  bound_note="size estimate (length of the out/search/found arrays) restricted to 12..16 cells; loops closed by loop contracts (no iteration bound)",
   enforce=["polygonToCells/polygonToCells_c17"], checks=["--no-standard-checks", "--pointer-check"],
   replace=["validatePolygonFlags", "maxPolygonToCellsSize/maxPolygonToCellsSize_frame", "_getEdgeHexagons/_getEdgeHexagons_frame",
            "bboxesFromGeoPolygon/bboxesFromGeoPolygon_frame", "gridDisk/gridDisk_k1_c17", "cellToLatLng/cellToLatLng_frame",
@@ -596,3 +597,25 @@ J(name="c05.neighbor.res1", props=["C05", "C10", "C01"], harness="c05.c", entry=
   bound_note="all valid cells of resolution <= 1 (842+122 cells, symbolic) x all 6 directions; loops unwound with unwinding assertions")
 J(name="c05.neighbor.res2", props=["C05", "C10", "C01"], harness="c05.c", entry="h_neighbor_closure", defs=["MAXRES=2"], unwind=8, timeout=3000, tier="thorough",
   bound_note="all valid cells of resolution <= 2 (symbolic) x all 6 directions; loops unwound with unwinding assertions")
+
+# ------------------------------------------------------------------ C11
+PROPS["C11"] = dict(
+    level="other",
+    explanation="predicate/shape clauses by contracts for all 2^64 inputs: isValidVertex <=> (mode 4, valid owner cell, re-deriving the vertex "
+                "from (owner, number) reproduces the index); cellToVertexes slot i == cellToVertex(cell, i), slot 5 null for a pentagon, errors "
+                "propagated; cellToVertex answers E_DOMAIN for a vertex number outside the cell's range without writing, results have mode 4, "
+                "centre children name their own vertexes. cellToVertex's owner selection enters as an uninterpreted deterministic function.",
+    trusted_base=["cellToVertex as an uninterpreted function in the isValidVertex / cellToVertexes proofs"], assumptions=[],
+    not_decided=["the three cells at a corner produce the identical index; 2N-4 count; neighbours share exactly two vertexes (needs the concrete "
+                 "neighbour step: bounded only, not built for vertexes in this round)", "vertexToLatLng is the i-th corner of cellToBoundary (geometry)"],
+    level_text="Unbounded proof of the predicate/shape clauses on the real functions; canonical sharing and coordinates are not decided.",
+    level_note="Category 'other': partial.")
+J(name="c11.isValidVertex", props=["C11", "C12", "C18"], harness="c11.c", entry="h_isValidVertex", enforce=["isValidVertex"],
+  replace=["isValidCell", "cellToVertex/cellToVertex_uf"], replay=dict(fn="isValidVertex", args=["vertex"]))
+J(name="c11.cellToVertexes", props=["C11", "C12", "C18"], harness="c11.c", entry="h_cellToVertexes", enforce=["cellToVertexes"],
+  replace=["isPentagon", "cellToVertex/cellToVertex_uf"], unwind=8, replay=dict(fn="cellToVertexes", args=["cell"]))
+J(name="c11.cellToVertex", props=["C11", "C12", "C18"], harness="c11.c", entry="h_cellToVertex", enforce=["cellToVertex"],
+  replace=["isPentagon", "h3NeighborRotations/h3NeighborRotations_uf", "directionForVertexNum/directionForVertexNum_frame",
+           "vertexNumForDirection/vertexNumForDirection_frame", "directionForNeighbor/directionForNeighbor_frame"],
+  exclude=[(r"cellToVertex\.overflow\.\d+ .*\(uint64_t\)ownerVertexNum", "signed-to-unsigned conversion (defined behaviour) of a vertex number that is -1 only "
+            "when the vertex-number lookup fails; whether that is reachable depends on vertexNumForDirection, a frame-only contract here")])
